@@ -486,6 +486,38 @@ impl Corpus {
       sources.get_mut(&m).unwrap().push_str(&t);
       closure_classes.push((mi, cn));
     }
+    // an interface hierarchy declared in one module and implemented by a class of every module:
+    // the checks of all modules (one job each) resolve the same transitive super types
+    let hierarchy_depth = rng.range(3, 10);
+    let hierarchy_chains = rng.range(1, 3);
+    {
+      let mut h = String::new();
+      for c in 0..hierarchy_chains {
+        for d in 0..hierarchy_depth {
+          if d + 1 < hierarchy_depth {
+            h.push_str(&format!("interface Chain{c}Level{d} : Chain{c}Level{} {{}}\n\n", d + 1));
+          } else {
+            h.push_str(&format!("interface Chain{c}Level{d} {{\n  method describe(): Str\n}}\n\n"));
+          }
+        }
+      }
+      sources.get_mut(&mod_names[0]).unwrap().push_str(&h);
+    }
+    for (mi, m) in mod_names.iter().enumerate() {
+      let t = sources.get_mut(m).unwrap();
+      if mi != 0 {
+        let names: Vec<String> = (0..hierarchy_chains).map(|c| format!("Chain{c}Level0")).collect();
+        *t = format!("import {{ {} }} from {};\n{t}", names.join(", "), mod_names[0].join("."));
+      }
+      let mut runs = String::new();
+      for c in 0..hierarchy_chains {
+        t.push_str(&format!(
+          "class Tagged{mi}Of{c}(val id: int) : Chain{c}Level0 {{\n  method describe(): Str = \"tagged {c} \" :: Str.fromInt(this.id + {mi})\n}}\n\n"
+        ));
+        runs.push_str(&format!("    Process.println(Tagged{mi}Of{c}.init({mi}).describe());\n"));
+      }
+      t.push_str(&format!("class Tagged{mi} {{\n  function run(): unit = {{\n{runs}  }}\n}}\n\n"));
+    }
     // the same private class name and the same enum shape in every module; a generic enum used at
     // two types in each module
     for (mi, m) in mod_names.iter().enumerate() {
@@ -550,7 +582,7 @@ impl Corpus {
       t.push_str(&format!("import {{ {cn} }} from {};\n", mod_names[*cm].join(".")));
     }
     for (mi, m) in mod_names.iter().enumerate() {
-      t.push_str(&format!("import {{ SameShape{mi} }} from {};\n", m.join(".")));
+      t.push_str(&format!("import {{ SameShape{mi}, Tagged{mi} }} from {};\n", m.join(".")));
     }
     if ra != rb {
       t.push_str(&format!("import {{ RecA }} from {};\nimport {{ RecB }} from {};\n", mod_names[ra].join("."), mod_names[rb].join(".")));
@@ -566,7 +598,7 @@ impl Corpus {
       t.push_str(&format!("    {cn}.run({});\n", ci + 1));
     }
     for mi in 0..n_modules {
-      t.push_str(&format!("    SameShape{mi}.run();\n"));
+      t.push_str(&format!("    SameShape{mi}.run();\n    Tagged{mi}.run();\n"));
     }
     if twins {
       if sources[&mod_names[ta]].contains("class Path(val hops: int)") {
